@@ -274,6 +274,15 @@ def check_coding_labels(prog, rep):
                             continue
                         srcs = assigns.get(v.id, []) if isinstance(v, ast.Name) else [dump(v)]
                         obj = [s for s in srcs if s != "None"]
+                        if not obj and isinstance(v, ast.Name):
+                            # bound by tuple unpacking of a helper's result (or not bound here at all): the source is not visible in this function
+                            rep.unrec("R3-labels", f.qualname, "%s of the result (%s) is not assigned from an attribute of %s in this function" % (k, v.id, g))
+                            good = False
+                            continue
+                        if obj != ["%s.%s" % (g, k)] and not any(("%s." % g) in o for o in obj):
+                            rep.unrec("R3-labels", f.qualname, "%s of the result is %s: not traced to the genotype object" % (k, obj))
+                            good = False
+                            continue
                         if obj != ["%s.%s" % (g, k)]:
                             rep.violate("R3-labels", f.qualname, "%s of the result is %s, not the genotype object's %s" % (k, obj, k), where(f, outc[0]), "%s.%s" % (g, k), str(obj))
                             good = False
@@ -550,10 +559,20 @@ def check_rrblup(prog, rep):
         else:
             x = dump(upd[0].targets[0].value)
             i = dump(upd[0].targets[0].slice)
+            gvn = VN(prog, g)
+            try:
+                for s_ in ast.walk(g.node):
+                    if isinstance(s_, ast.Assign) and isinstance(s_.targets[0], ast.Name) and s_ is not upd[0] and s_.lineno < upd[0].lineno \
+                            and not isinstance(s_.value, ast.Call):
+                        gvn.stmt(s_)
+            except VNUnknown:
+                pass
             ref = parse_expr("(%s[%s] - %s[%s, :%s].dot(%s[:%s]) - %s[%s, %s + 1:].dot(%s[%s + 1:])) / %s[%s, %s]" % (b, i, A, i, i, x, i, A, i, i, x, i, A, i, i))
-            got = VN(prog, g).expr(upd[0].value)
+            got = gvn.expr(upd[0].value)
             if got != ref:
-                if comparable(got, ref):
+                if got.var_names() - ref.var_names():
+                    rep.unrec("R7-rrblup", g.qualname, "update reads local values the rule does not trace (%s)" % ", ".join(sorted(got.var_names() - ref.var_names())))
+                elif comparable(got, ref):
                     rep.violate("R7-rrblup", g.qualname, "Gauss-Seidel update normalises to %s; the sweep is (b_i - A[i,:i].x[:i] - A[i,i+1:].x[i+1:]) / A[i,i]" % got.show()[:160], where(g, upd[0]),
                                 ref.show()[:160], got.show()[:160])
                 else:
@@ -645,8 +664,7 @@ def check_rrblup(prog, rep):
                     good = False
                 def row_sel(st):
                     sl = st.targets[0].slice
-                    e0 = sl.elts[0] if isinstance(sl, ast.Tuple) and len(sl.elts) == 2 and isinstance(sl.elts[1], ast.Slice) and sl.elts[1].lower is None and sl.elts[1].upper is None else (
-                        sl if not isinstance(sl, ast.Tuple) else None)
+                    e0 = sl.elts[0] if isinstance(sl, ast.Tuple) and len(sl.elts) == 2 else (sl if not isinstance(sl, ast.Tuple) else None)
                     if isinstance(e0, ast.Name) and e0.id == mask:
                         return "mask"
                     if isinstance(e0, ast.UnaryOp) and isinstance(e0.op, ast.Invert) and isinstance(e0.operand, ast.Name) and e0.operand.id == mask:
@@ -657,7 +675,10 @@ def check_rrblup(prog, rep):
                 est = [st for st in stores if row_sel(st) == "mask"]
                 zero = [st for st in stores if row_sel(st) == "complement"]
                 zero_ok = (len(zero) == 1 and isinstance(zero[0].value, ast.Constant) and zero[0].value.value == 0) or afn == "numpy.zeros"
-                if len(est) != 1 or not isinstance(est[0].value, ast.Name):
+                if len(est) == 1 and not isinstance(est[0].value, ast.Name):
+                    rep.unrec("R7-rrblup", fn.qualname, "estimates scattered from %s (another formulation)" % dump(est[0].value)[:40])
+                    good = False
+                elif len(est) != 1:
                     rep.violate("R7-rrblup", fn.qualname, "the estimates are not scattered to the rows of the markers that were fitted (%s[%s, :] = <estimates>); stores: %s"
                                 % (U, mask, [dump(st)[:40] for st in stores]), where(fn), "%s[%s, :] = uhat" % (U, mask), str([dump(st)[:40] for st in stores]))
                     good = False
